@@ -116,6 +116,12 @@ class Evaluator:
         self.modifications.clear()
         return r
 
+    @staticmethod
+    def _array_index(node, key):
+        # The key selects like the lowered Case does: on its FHDL width/signedness, last choice as default.
+        key = _truncate(key, *value_bits_sign(node.key))
+        return key if 0 <= key < len(node.choices) else len(node.choices) - 1
+
     def eval(self, node, postcommit=False):
         if isinstance(node, Constant):
             return node.value
@@ -158,7 +164,7 @@ class Evaluator:
             v = self.eval(node.v, postcommit) & (2**nbits - 1)
             return sum(v << i*nbits for i in range(node.n))
         elif isinstance(node, _ArrayProxy):
-            idx = min(len(node.choices) - 1, self.eval(node.key, postcommit))
+            idx = self._array_index(node, self.eval(node.key, postcommit))
             return self.eval(node.choices[idx], postcommit)
         elif isinstance(node, _MemoryLocation):
             array = self.replaced_memories[node.memory]
@@ -197,7 +203,7 @@ class Evaluator:
             full_value |= value << node.start
             self.assign(node.value, full_value)
         elif isinstance(node, _ArrayProxy):
-            idx = min(len(node.choices) - 1, self.eval(node.key))
+            idx = self._array_index(node, self.eval(node.key))
             self.assign(node.choices[idx], value)
         elif isinstance(node, _MemoryLocation):
             array = self.replaced_memories[node.memory]
